@@ -1,3 +1,4 @@
+import Fpdec.Kernels.AddSub
 import Fpdec.Kernels.Pow
 import Fpdec.Lemmas.Dom
 import Fpdec.Props.C01_Sites
@@ -197,5 +198,20 @@ theorem kernel_checked_mul_pow_ten (prof : Profile) (val : Int) (n : Nat) :
 theorem kernel_checked_adjust_coeffs (prof : Profile) (x : Int) (p : Nat) (y : Int) (q : Nat) (hp : p < 256) (hq : q < 256) :
     Gen.K.checked_adjust_coeffs prof x p y q = .ok (checkedAdjustCoeffs x p y q) :=
   Kernels.checked_adjust_coeffs_eq prof x p y q hp hq
+
+/-- `Decimal ± Decimal` (operator and checked bodies, instantiated from the `macro_rules!` definitions with the arguments of their
+    invocations) and the integer forms `Decimal ± int`, `int ± Decimal`, as translated on this run -/
+theorem kernel_add_sub (prof : Profile) (sub : Bool) (x y : Dec) (hp : x.nfrac < 256) (hq : y.nfrac < 256) :
+    (if sub then Gen.K.decimal_sub prof x y else Gen.K.decimal_add prof x y) = addSub sub x y :=
+  Kernels.add_sub_eq prof sub x y hp hq
+theorem kernel_checked_add_sub (prof : Profile) (sub : Bool) (x y : Dec) (hp : x.nfrac < 256) (hq : y.nfrac < 256) :
+    (if sub then Gen.K.decimal_checked_sub prof x y else Gen.K.decimal_checked_add prof x y) = .ok (checkedAddSub sub x y) :=
+  Kernels.checked_add_sub_eq prof sub x y hp hq
+theorem kernel_add_sub_dec_int (prof : Profile) (sub : Bool) (d : Dec) (i : Int) :
+    (if sub then Gen.K.decimal_sub_int prof d i else Gen.K.decimal_add_int prof d i) = addSubInt sub false d i :=
+  Kernels.add_sub_dec_int_eq prof sub d i
+theorem kernel_add_sub_int_dec (prof : Profile) (sub : Bool) (d : Dec) (i : Int) :
+    (if sub then Gen.K.int_sub_decimal prof i d else Gen.K.int_add_decimal prof i d) = addSubInt sub true d i :=
+  Kernels.add_sub_int_dec_eq prof sub d i
 
 end Fpdec.Props.C01
